@@ -43,12 +43,14 @@ class C20(Check):
     technique = ("Coq proof over an executable model of the range-for loop over enumerate()/reverse() (iterator = position, explicit fuel, "
                  "container threaded through the loop; invariant proofs by induction) + extraction-based differential test against the C++ "
                  "under AddressSanitizer for every container kind and value category")
-    level_text = ("Eight theorems in Coq for ALL element types, ranges of ANY length (also empty) and ANY update function: the range-for over "
+    level_text = ("Twelve theorems in Coq for ALL element types, ranges of ANY length (also empty) and ANY update function: the range-for over "
                   "enumerate(c) ends within length+1 tests of `b != e` (so after exactly length(c) iterations), never dereferences a non-element, "
                   "visits exactly (0,c0),(1,c1),... and leaves the container as [f 0 c0; f 1 c1; ...] when the body assigns f index value through "
                   "the proxy (map g c for an index-blind body, c for a read-only one); the same for owned (temporary / moved / initializer-list) "
                   "ranges; reverse(c) visits rev c and leaves map f c, for containers with reverse iterators and for built-in arrays iterated "
-                  "through a vector of references. The model (iterator = position, index incremented with it, end detected by position only, "
+                  "through a vector of references; an adaptor has no state that survives between uses (the loop is a function of the range only): the same "
+                  "adaptor iterated twice, loops nested over one container, an adaptor created before the elements were changed in place, and repeated "
+                  "begin() != end() tests give what a fresh adaptor gives. The model (iterator = position, index incremented with it, end detected by position only, "
                   "reverse iterator with base b denoting element b-1) is tied to /repo by running the extracted model and the real adaptors (ASan/"
                   "UBSan build of the working tree) on every container kind x value category x length 0..5 (0..6 thorough) x several element "
                   "lists and comparing visits, per-visit address identity with the container's own elements, and contents after writing through "
@@ -62,7 +64,9 @@ class C20(Check):
     rule = ("all (adaptor, container kind, value category, length) combinations that exist in C++: adaptor in {enumerate, reverse}, kind in {vector, "
             "std::array, list, map, built-in array, initializer_list, fixed_vector}, category in {lvalue with write-through, const lvalue, temporary "
             "created inside the for statement, std::move of a local}, length 0..5 (0..6 thorough), each with several element lists (ascending, "
-            "all-equal, random distinct from VERIF_SEED); a case is non-trivial when the range has at least one element; distinct = distinct case line")
+            "all-equal, random distinct from VERIF_SEED); plus REUSE scenarios on vector/list/map/fixed_vector, lengths 0..5(6): one adaptor object iterated "
+            "twice (over an lvalue and owning a temporary), enumerate-in-enumerate and reverse-in-enumerate over the same container, adaptor created "
+            "before an in-place change of all elements, begin()!=end() asked before/after a loop and through stored iterators; a case is non-trivial when the range has at least one element; distinct = distinct case line")
     modelled_note = ("modelled, not verified: overload resolution, lifetime of temporaries, the underlying containers' iterators and "
                      "std::reverse_iterator (a position / a base position in the model)")
 
@@ -80,6 +84,16 @@ class C20(Check):
                             lists.append(rng.sample(range(-50, 1000), n))
                         for l in lists:
                             yield "%s %s %s %s" % (ad, kind, mode, wl(l)), "exh-%s-%s" % (ad, mode)
+        # the SAME adaptor object / container used more than once (state that would survive between uses)
+        for sc in ("en2", "rv2", "enen", "enrv", "enmod", "rvmod", "enbe", "rvbe"):
+            for kind in ("vec", "list", "map", "fv"):
+                for mode in ("lr" if sc in ("en2", "rv2", "enbe", "rvbe") else "l"):
+                    for n in range(0, maxn + 1):
+                        lists = [list(range(10, 10 + n)), [7] * n]
+                        for _ in range(max(1, reps // 2)):
+                            lists.append(rng.sample(range(-50, 1000), n))
+                        for l in lists:
+                            yield "re %s %s %s %s" % (sc, kind, mode, wl(l)), "reuse-" + sc
         # longer ranges for the kinds whose length is not a template parameter
         for _ in range(60 if tier == "quick" else 1500):
             ad = rng.choice(("en", "rv"))
@@ -92,23 +106,23 @@ class C20(Check):
         coqchk_extra(self, ctx, ["Nitro.Properties.Properties_C20"])
 
     def nontrivial(self, case, mobs, iobs):
-        return case.split()[3] != "."
+        return case.split()[-1] != "."
 
     def signature(self, case, mobs, iobs):
         w = case.split()
-        n = 0 if w[3] == "." else w[3].count(",") + 1
-        return (w[0], w[1], w[2], min(n, 7), iobs.split(" ")[0])
+        n = 0 if w[-1] == "." else w[-1].count(",") + 1
+        return tuple(w[:-1]) + (min(n, 7), iobs.split(" ")[0])
 
     def shrink(self, case):
         w = case.split()
-        if len(w) != 4 or w[3] == ".":
+        if len(w) not in (4, 5) or w[-1] == ".":
             return
-        el = w[3].split(",")
+        el = w[-1].split(",")
         for i in range(len(el)):
-            yield " ".join(w[:3] + [",".join(el[:i] + el[i + 1:]) or "."])
+            yield " ".join(w[:-1] + [",".join(el[:i] + el[i + 1:]) or "."])
         for i, e in enumerate(el):
             if e not in ("0", "1"):
-                yield " ".join(w[:3] + [",".join(el[:i] + ["1"] + el[i + 1:])])
+                yield " ".join(w[:-1] + [",".join(el[:i] + ["1"] + el[i + 1:])])
 
 
 CHECK = C20
